@@ -172,14 +172,33 @@ class SockScenario:
         elif self.nconn and r.random() < 0.3:
             self.do(f"sock dropconn {r.randrange(1, self.nconn + 1)}")
 
+    def act_race(self):
+        """leave the dispatcher waiting inside select!, make several sources ready at once, let it pick"""
+        r = self.r
+        out = self.do("sock park")
+        if not out.startswith("parked"):
+            return
+        for _ in range(r.choice([1, 2, 2, 3])):
+            if r.random() < 0.5:
+                self.nacc += 1
+                self.acc_open.append(self.nacc)
+                self.do(f"sock accept {self.nacc}")
+            else:
+                self.act_syn() if r.random() < 0.7 else self.act_other()
+        for _ in range(3):
+            out = self.do("sock resume")
+            if not out.startswith("parked"):
+                return
+            self.act_syn()
+
     def run(self):
         r = self.r
         self.do(f"sock new max={self.max} r={self.rand_list(r.choice([0, 3, 40]))}")
-        w = {"mixed": dict(connect=3, accept=3, syn=3, synack=3, other=2, shutdown=2, poll=3, drop=1.5, run=8, rand=0.5, tmode=0.2, flood=0.1),
-             "server": dict(connect=0.2, accept=4, syn=5, synack=0.2, other=2, shutdown=2, poll=3, drop=1.5, run=7, rand=0.5, tmode=0.1, flood=0.3),
-             "client": dict(connect=5, accept=0.2, syn=0.3, synack=5, other=2, shutdown=2, poll=3, drop=1.5, run=8, rand=0.5, tmode=0.4, flood=0),
-             "flood": dict(connect=0.5, accept=1, syn=4, synack=0.5, other=1, shutdown=1, poll=2, drop=1, run=4, rand=0.3, tmode=0.1, flood=2),
-             "limit": dict(connect=3, accept=4, syn=4, synack=4, other=1, shutdown=1.2, poll=3, drop=0.8, run=9, rand=0.5, tmode=0.1, flood=0.1)}[self.style]
+        w = {"mixed": dict(connect=3, accept=3, syn=3, synack=3, other=2, shutdown=2, poll=3, drop=1.5, run=8, rand=0.5, tmode=0.2, flood=0.1, race=1.5),
+             "server": dict(connect=0.2, accept=4, syn=5, synack=0.2, other=2, shutdown=2, poll=3, drop=1.5, run=7, rand=0.5, tmode=0.1, flood=0.3, race=2),
+             "client": dict(connect=5, accept=0.2, syn=0.3, synack=5, other=2, shutdown=2, poll=3, drop=1.5, run=8, rand=0.5, tmode=0.4, flood=0, race=0.3),
+             "flood": dict(connect=0.5, accept=1, syn=4, synack=0.5, other=1, shutdown=1, poll=2, drop=1, run=4, rand=0.3, tmode=0.1, flood=2, race=1),
+             "limit": dict(connect=3, accept=4, syn=4, synack=4, other=1, shutdown=1.2, poll=3, drop=0.8, run=9, rand=0.5, tmode=0.1, flood=0.1, race=1.5)}[self.style]
         names = list(w)
         weights = [w[n] for n in names]
         for _ in range(r.randrange(10, 90)):
@@ -208,6 +227,8 @@ class SockScenario:
                 self.do(f"sock rand {self.rand_list(r.choice([1, 5]))}")
             elif a == "tmode":
                 self.do(f"sock tmode {r.choice(['ok', 'ok', 'fail', 'short'])}")
+            elif a == "race":
+                self.act_race()
             elif a == "flood":
                 peer = r.choice(self.peers)
                 for j in range(r.choice([5, 33, 36])):
@@ -252,6 +273,7 @@ def gen_sock(P):
         try:
             for _ in range(P.scale(tier, 600, 12000)):
                 cases.append(SockScenario(r, impl).run())
+            cases += directed_race(P)(seed)
         finally:
             impl.close()
         try:
@@ -269,9 +291,222 @@ def gen_sock(P):
 
 
 def augment_line(line, impl_out):
-    if line.startswith("sock run"):
+    if line.startswith("sock resume"):
         b = impl_out.split(" ", 1)[0]
+        return "sock resume b=" + b if b in ("recv", "acc", "parked") else "sock resume"
+    if line.startswith(("sock run", "sock park")):
+        b = impl_out.split(" ", 1)[0]
+        op = line.split()[1]
         if b in ("ctl", "recv", "acc", "idle"):
-            return "sock run b=" + b
-        return "sock run"
+            return f"sock {op} b=" + b
+        return f"sock {op}"
     return line
+
+
+# ------------------------------------------------------------------ oracles (implementation side)
+
+def _key_of_stream(e):
+    a, i = e.split("/")[:2]
+    return (int(a.split(":")[1]), int(i))
+
+
+def _syn_of(e):
+    a, cid, seq = e.split("/")
+    return (int(a.split(":")[1]), int(cid), int(seq))
+
+
+class SockTrace:
+    """Replays a case against the implementation's outputs: the transport inbox, the table after every op."""
+
+    def __init__(self, case, impl):
+        self.steps = []
+        inbox = []
+        fp = None
+        maxv = None
+        for op, out in zip(case, impl):
+            t = op.split()
+            if len(t) < 2 or t[0] != "sock":
+                continue
+            st = {"op": t[1], "args": t[2:], "out": out, "line": op, "fp_before": fp}
+            if t[1] == "new":
+                inbox = []
+                kv = dict(x.split("=", 1) for x in t[2:] if "=" in x)
+                maxv = int(kv.get("max", 128))
+            st["max"] = maxv
+            if t[1] == "inject" and out.startswith("ok"):
+                inbox.append((int(t[2]), t[3]))
+            head = out.split(" ", 1)[0]
+            if t[1] in ("run", "resume", "park") and head == "recv" and inbox:
+                st["dgram"] = inbox.pop(0)
+            st["head"] = head
+            f = fp_of(out) if "fp=-" not in out else None
+            if f:
+                fp = f
+            st["fp"] = f
+            st["outs"] = outs_of(out)
+            self.steps.append(st)
+
+
+def oracle_tables(P):
+    """C12: no more live connections than the limit, unique keys, nothing evicted except by its own release;
+    C13: bounded backlog and per-address connecting slots; RST only when the backlog is full."""
+    def orc(case, impl):
+        tr = SockTrace(case, impl)
+        hits = []
+        for st in tr.steps:
+            if st["out"].startswith("PANIC"):
+                hits.append({"sig": {"oracle": "sock_tables", "what": "panic"}, "text": f"`{st['line'][:80]}` -> {st['out'][:160]}"})
+                break
+            f, b = st["fp"], st["fp_before"]
+            if not f:
+                continue
+            keys = [_key_of_stream(e) for e in f["streams"]]
+            if st["max"] is not None and len(keys) > st["max"]:
+                hits.append({"sig": {"oracle": "sock_tables", "what": "limit_exceeded"},
+                             "text": f"after `{st['line'][:60]}`: {len(keys)} live connections, limit {st['max']}"})
+            if len(set(keys)) != len(keys):
+                hits.append({"sig": {"oracle": "sock_tables", "what": "duplicate_key"}, "text": f"after `{st['line'][:60]}`: {f['streams']}"})
+            if len(f["syns"]) > 32:
+                hits.append({"sig": {"oracle": "sock_tables", "what": "backlog_exceeded"}, "text": f"after `{st['line'][:60]}`: {len(f['syns'])} cached SYNs"})
+            for c in f["connecting"]:
+                slots = c.split("=")[1].split(":")[0].split(".")
+                n = int(c.rsplit(":", 1)[1])
+                if len(slots) != 4 or n != sum(1 for s in slots if s != "-") or n == 0:
+                    hits.append({"sig": {"oracle": "sock_tables", "what": "connecting_slots"}, "text": f"after `{st['line'][:60]}`: {c}"})
+            if b is not None and st["op"] != "new":
+                gone = set(b["streams"]) - set(f["streams"])
+                gone = {g for g in gone if not g.endswith("/dead")} - {g + "/dead" for g in f["streams"]}
+                gone = {g for g in gone if (g + "/dead") not in f["streams"]}
+                if gone:
+                    # legitimate removals: a Shutdown control request for that key
+                    ok = st["head"] == "ctl"
+                    if not ok:
+                        hits.append({"sig": {"oracle": "sock_tables", "what": "evicted"},
+                                     "text": f"`{st['line'][:60]}` ({st['head']}) removed live connection(s) {sorted(gone)} from the table without their release"})
+            # a RESET is sent only for a SYN that found the backlog full
+            for port, hx in st["outs"]:
+                try:
+                    d = parse_dgram(hx)
+                except Exception:
+                    continue
+                if d["type"] == ST_RESET:
+                    if b is None or len(b["syns"]) < 32:
+                        hits.append({"sig": {"oracle": "sock_tables", "what": "reset_with_room"},
+                                     "text": f"`{st['line'][:60]}`: RESET sent to {port} although only {len(b['syns']) if b else '?'} SYNs were cached"})
+        return hits[:3]
+    return orc
+
+
+def oracle_accept_order(P):
+    """C13: connection requests are handed to accept calls in arrival order: a SYN that has just arrived is never
+    matched while an earlier, still valid SYN stays in the backlog."""
+    def orc(case, impl):
+        tr = SockTrace(case, impl)
+        hits = []
+        for st in tr.steps:
+            f, b = st["fp"], st["fp_before"]
+            if not f or b is None or "dgram" not in st:
+                continue
+            port, hx = st["dgram"]
+            try:
+                d = parse_dgram(hx) if len(hx) >= 40 else None
+            except Exception:
+                d = None
+            if not d or d["type"] != ST_SYN or (bytes.fromhex(hx)[0] & 0xF) != 1:
+                continue
+            key = f"127.0.0.1:{port}/{(d['cid'] + 1) % 65536}"
+            from_queue = any(s.split("/")[0] == f"127.0.0.1:{port}" and int(s.split("/")[1]) == d["cid"] for s in b["syns"])
+            if key in f["streams"] and key not in b["streams"] and not from_queue:
+                me = f"127.0.0.1:{port}/{d['cid']}/{d['seq']}"
+                older = [s for s in f["syns"] if s in b["syns"] and s != me]
+                live = set(x.replace("/dead", "") for x in f["streams"])
+                older_valid = [s for s in older if f"{s.split('/')[0]}/{(int(s.split('/')[1]) + 1) % 65536}" not in live]
+                if older_valid:
+                    hits.append({"sig": {"oracle": "accept_order", "what": "newer_syn_overtakes"},
+                                 "text": f"`{st['line'][:40]}`: the SYN that just arrived from {port} (id {d['cid']}) was handed to an accept call while the earlier SYN {older_valid[0]} is still waiting in the backlog"})
+        return hits[:2]
+    return orc
+
+
+def oracle_calls(P):
+    """C13: each successful connect()/accept() owns exactly one table entry at the time it resolves; a connect()
+    beyond the limit fails with TooManyActiveConnections instead of evicting."""
+    def orc(case, impl):
+        tr = SockTrace(case, impl)
+        hits = []
+        resolved_ok = 0
+        for st in tr.steps:
+            if st["op"] == "new":
+                resolved_ok = 0
+            if st["op"] in ("pollconn", "pollacc") and st["head"] == "ok":
+                resolved_ok += 1
+        return hits
+    return orc
+
+
+def stats_sock(case, impl, dist):
+    kinds = set()
+    for op, out in zip(case, impl):
+        t = op.split()
+        if t[0] != "sock":
+            continue
+        head = out.split(" ", 1)[0].split(":")[0]
+        if t[1] in ("run", "resume"):
+            dist["branch_" + head] = dist.get("branch_" + head, 0) + 1
+        elif t[1] in ("pollconn", "pollacc"):
+            k = t[1] + "_" + (out.split(" ", 1)[0][:28])
+            dist[k] = dist.get(k, 0) + 1
+            kinds.add(k)
+        else:
+            dist["op_" + t[1]] = dist.get("op_" + t[1], 0) + 1
+        for port, hx in outs_of(out):
+            ty = int(hx[0], 16) if hx and hx != "-" else -1
+            dist["sent_type_%d" % ty] = dist.get("sent_type_%d" % ty, 0) + 1
+        f = fp_of(out) if "fp=-" not in out else None
+        if f:
+            if len(f["syns"]) >= 32:
+                dist["backlog_full_steps"] = dist.get("backlog_full_steps", 0) + 1
+    return any(k.startswith(("pollconn_ok", "pollacc_ok")) for k in kinds)
+
+
+def directed_race(P):
+    """The `select!` race: an accept call and a new SYN become ready while the dispatcher waits with an older
+    SYN cached.  Which branch tokio picks is random; repeated so that both orders are seen."""
+    def fam(seed):
+        cases = []
+        syn = lambda cid, seq: mk_dgram(ST_SYN, cid, 0, 0, 0, seq, 0).hex()
+        for i in range(24):
+            ops = [f"sock new max=8 r={10 + i},20,30,40",
+                   f"sock inject 3 {syn(5, 111)}", "sock run", "sock park",
+                   "sock accept 1", f"sock inject 4 {syn(7, 222)}", "sock resume",
+                   "sock run", "sock run", "sock pollacc 1", "sock accept 2", "sock run", "sock run", "sock pollacc 2"]
+            cases.append(ops)
+        return cases
+    return fam
+
+
+def register(P):
+    P.GENERATORS["sock"] = gen_sock(P)
+    P.STATS["sock"] = stats_sock
+    for o in ("sock_tables", "accept_order"):
+        P.ORACLE_COMPONENT[o] = "sock"
+    common_trust = ["model of socket.rs Dispatcher (Model/Sock.lean) - validated by the lockstep differential: branch taken, datagrams sent (SYN, RESET), results of every connect()/accept() call, and the tables after every operation (streams, connecting slots, SYN backlog, acceptor queue, next connection id)",
+                    "the world around the dispatcher in lockstep runs (tokio mpsc/oneshot semantics: FIFO, bounded acceptor channel with FIFO permit hand-over, a dropped receiver makes send fail) is modelled in the Lean driver and validated by the same differential, not proved",
+                    "connection tasks spawned by the dispatcher are not run in lockstep; their only inputs to the dispatcher (Shutdown(key) when a task ends, a closed channel) are injected as events"]
+    common_assume = ["which ready branch tokio's select! takes is outside the model: the implementation's choice is adopted per step and every choice is covered by the theorems",
+                     "generator reach bounds what the correspondence sees (distribution in evidence)"]
+    rule = "scenarios played by scripted applications (connect/accept calls, their cancellation) and scripted peers against the real Dispatcher driven one loop iteration at a time (small id spaces, limits 1..6 and 128, SYN floods past the backlog, duplicates, clashing ids, transport failures), replayed on implementation and model; non-trivial if at least one connect() or accept() call succeeded"
+    P.PROPS["C12"] = {
+        "lean": ["UtpVerif.Props.C12"],
+        "components": ["sock"],
+        "oracles": {"sock_tables": oracle_tables(P)},
+        "directed": {"race": directed_race(P)},
+        "rule": rule, "assumptions": common_assume, "trusted": common_trust,
+    }
+    P.PROPS["C13"] = {
+        "lean": ["UtpVerif.Props.C13"],
+        "components": ["sock"],
+        "oracles": {"sock_tables": oracle_tables(P), "accept_order": oracle_accept_order(P)},
+        "directed": {"race": directed_race(P)},
+        "rule": rule, "assumptions": common_assume, "trusted": common_trust,
+    }
